@@ -1,1 +1,2 @@
 pub mod bfs;
+pub mod sched;
